@@ -90,7 +90,12 @@ pub fn gen_ready(r: &mut Rng) -> String {
             0 => {}
             1 | 2 => attrs.push(("printer-state-reasons".into(), IppValue::Keyword(word(r)))),
             3 | 4 | 5 => {
-                let n = r.range(2, 6);
+                let n = if r.chance(1, 5) { r.range(0, 1) } else { r.range(2, 6) };
+                if n == 0 {
+                    attrs.push(("printer-state-reasons".into(), IppValue::Array(vec![])));
+                    groups.push((4, attrs));
+                    continue;
+                }
                 let mut vs: Vec<IppValue> = (0..n).map(|_| IppValue::Keyword((*r.pick(HARMLESS)).to_string())).collect();
                 if r.chance(1, 2) {
                     let pos = r.below(n) as usize;
@@ -206,7 +211,8 @@ pub fn gen_uri(r: &mut Rng) -> GenUri {
                 p.push('/');
             }
             for _ in 0..r.range(0, 7) {
-                match r.below(10) {
+                match r.below(12) {
+                    10 => p.push_str(*r.pick(&["ipp://x", "ipps://y.z", "http://h", "https://", "ipp:", "//"])),
                     0 => p.push_str(*r.pick(&["%20", "%2F", "%C3%A9", "%40", "%3F", "%25"])),
                     1 => p.push(*r.pick(&['-', '.', '_', '~', '!', '$', '&', '\'', '(', ')', '*', '+', ',', ';', '=', ':', '@'])),
                     _ => p.push(*r.pick(&['p', 'r', 'i', 'n', 't', 'e', 's', '1', '7', 'A'])),
@@ -222,6 +228,9 @@ pub fn gen_uri(r: &mut Rng) -> GenUri {
             if q.ends_with('%') {
                 q.push_str("41");
             }
+        }
+        if r.chance(1, 6) {
+            q.push_str(*r.pick(&["&device-uri=ipp://backend/q", "&u=ipps://a.b:1/c", "&next=http://h/"]));
         }
         Some(q)
     } else {
